@@ -896,18 +896,20 @@ pub fn run_lassos(prop: &str, checks: u32, thorough: bool) -> Vec<FamilyResult> 
 /// next to a trap (a shuffle must not capture anything), at most one per piece, in board order; `rot` rotates the
 /// direction preference (so that the scripted turn-ending steps sit at different places of the generated lists)
 fn shuffle_candidates(b: &rm::Board, gold: bool, rot: usize) -> Vec<(usize, usize, usize)> {
-    let near_trap = |i: usize| rm::is_trap(i) || (0..4).any(|d| rm::nb(i, d).map_or(false, rm::is_trap));
+    // not from / onto a trap square, and not a piece that is the only friendly neighbour of a piece standing on a trap
+    // (a shuffle must not capture anything; whatever else goes wrong is caught on the path, which is then abandoned)
+    let sole_guard = |i: usize| (0..4).any(|d| rm::nb(i, d).map_or(false, |t| rm::is_trap(t) && b[t] != rm::EMPTY && rm::is_gold(b[t]) == gold && (0..4).filter(|&e| rm::nb(t, e).map_or(false, |n| b[n] != rm::EMPTY && rm::is_gold(b[n]) == gold)).count() == 1));
     let mut v: Vec<(usize, usize, usize)> = vec![];
     for from in 0..64usize {
         let c = b[from];
-        if c == rm::EMPTY || rm::is_gold(c) != gold || rm::strength(c) == rm::RABBIT || near_trap(from) || rm::frozen(b, from) {
+        if c == rm::EMPTY || rm::is_gold(c) != gold || rm::strength(c) == rm::RABBIT || rm::is_trap(from) || sole_guard(from) || rm::frozen(b, from) {
             continue;
         }
         for dd in 0..4 {
             let d = (dd + rot) % 4;
             if let Some(to) = rm::nb(from, d) {
-                // the target must be empty, away from traps, and not the target of another candidate
-                if b[to] == rm::EMPTY && !near_trap(to) && !v.iter().any(|x| x.2 == to) {
+                // the target must be empty, not a trap, and not the target of another candidate
+                if b[to] == rm::EMPTY && !rm::is_trap(to) && !v.iter().any(|x| x.2 == to) {
                     v.push((from, d, to));
                     break;
                 }
@@ -922,30 +924,36 @@ fn shuffle_candidates(b: &rm::Board, gold: bool, rot: usize) -> Vec<(usize, usiz
 pub fn run_seed_shuffles(prop: &str, checks: u32, thorough: bool) -> Vec<FamilyResult> {
     let t0 = Instant::now();
     let fam = crate::families::fs_variants(&crate::verif_dir().join("seeds"), 1, 1);
-    let ks: Vec<usize> = if thorough { vec![1, 2, 3, 4] } else { vec![1, 3] };
-    let rots: Vec<usize> = if thorough { vec![0, 1, 2, 3] } else { vec![0, 3] };
+    let ks: Vec<usize> = if thorough { vec![1, 2, 3, 4] } else { vec![1, 2, 3] };
+    let rots: Vec<usize> = vec![0, 1, 2, 3];
     let family = format!("E9 seed shuffles: from each of the {} full-board seed roots, k in {:?} pieces per side step out and back in Gray-code order (mover: step + pass; other side: step + pass, or four-step turns f f' f x) so that a cycle of 2*2^k turn-start positions is walked twice and the third entry is attempted (history of 4*2^k+1 entries on a dense board); direction preferences {:?}", fam.n, ks, rots);
-    let mut jobs: Vec<(u64, usize, bool, usize)> = vec![];
+    // `off`: which of the candidate pieces are used (a window sliding over the candidate list)
+    let offs: Vec<usize> = if thorough { (0..8).collect() } else { (0..5).collect() };
+    let mut jobs: Vec<(u64, usize, bool, usize, usize)> = vec![];
     for i in 0..fam.n {
         for &k in ks.iter() {
             for four in [false, true] {
                 for &rot in rots.iter() {
-                    jobs.push((i, k, four, rot));
+                    for &off in offs.iter() {
+                        jobs.push((i, k, four, rot, off));
+                    }
                 }
             }
         }
     }
     let stats = jobs
         .par_iter()
-        .map(|&(idx, k, four, rot)| {
+        .map(|&(idx, k, four, rot, off)| {
             let (board, gold) = match (fam.decode)(idx) {
                 Some(x) => x,
                 None => return Stats::default(),
             };
-            let root = RootInfo { how: if idx % 2 == 1 { RootHow::Parsed } else { RootHow::Constructed }, explorer: "E9", family: family.clone(), idx, board, gold, move_number: 2, config: serde_json::json!({"gray_pieces_per_side": k, "other_side_plays_four_step_turns": four, "direction_preference_rotation": rot}) };
+            let root = RootInfo { how: if idx % 2 == 1 { RootHow::Parsed } else { RootHow::Constructed }, explorer: "E9", family: family.clone(), idx, board, gold, move_number: 2, config: serde_json::json!({"gray_pieces_per_side": k, "other_side_plays_four_step_turns": four, "direction_preference_rotation": rot, "candidate_offset": off}) };
             let mut ctx = Ctx::new(checks, prop, &root);
-            let mover = shuffle_candidates(&board, gold, rot);
-            let other = shuffle_candidates(&board, !gold, rot);
+            let mut mover = shuffle_candidates(&board, gold, rot);
+            let mut other = shuffle_candidates(&board, !gold, rot);
+            mover.drain(..off.min(mover.len()));
+            other.drain(..off.min(other.len()));
             // the other side needs one more piece (the filler of its four-step turns)
             if mover.len() < k || other.len() < k + four as usize {
                 ctx.stats.add("e9_paths_without_candidates", 1);
@@ -1014,6 +1022,10 @@ pub fn run_seed_shuffles(prop: &str, checks: u32, thorough: bool) -> Vec<FamilyR
                 if withheld {
                     ctx.stats.add(if four { "e9_third_occurrence_by_fourth_step_withheld" } else { "e9_third_occurrence_by_pass_withheld" }, 1);
                     ctx.stats.max("e9_longest_history_at_a_withheld_third_occurrence", node.hist.len() as u64);
+                    let n_rule_only = node.gs.valid_actions_no_rep().len() as u64;
+                    if node.hist.len() > 16 {
+                        ctx.stats.max(if four { "e9_longest_rule_only_list_at_a_withheld_fourth_step_with_history_over_16" } else { "e9_longest_rule_only_list_at_a_withheld_pass_with_history_over_16" }, n_rule_only);
+                    }
                 }
             }));
             if r.is_err() {
@@ -1021,7 +1033,7 @@ pub fn run_seed_shuffles(prop: &str, checks: u32, thorough: bool) -> Vec<FamilyR
                 ctx.fail(&format!("panic in the engine during `{}` on a reachable state", if q.is_empty() { "(harness code)" } else { q }), last_panic(), "returns normally".into());
             }
             ctx.stats.roots = 1;
-            if idx < 4 && rot == 0 && k == ks[0] {
+            if idx < 4 && rot == 0 && off == 0 && k == ks[0] {
                 ctx.stats.sample(idx * 2 + four as u64, format!("seed root #{} ({} to move), {} Gray piece(s) per side, first shuffle steps {} / {}{}:\n{}", idx, if gold { "Gold" } else { "Silver" }, k, fwd(mover[0]), fwd(other[0]), if four { " (four-step turns)" } else { "" }, rm::diagram(&board, gold, 2)));
             }
             std::mem::take(&mut ctx.stats)
